@@ -228,7 +228,10 @@ class Run:
         st = OS.state_of(o)
         if st in ("pending", "persistent"):
             return self.in_session(o) and o not in self.session.deleted
-        return st == "transient"
+        if st == "transient":
+            sx = self.m["inspect"](o)
+            return not (sx.expired or sx.expired_attributes)      # (expired and then rolled back to transient: nothing left to use)
+        return False
 
     def pair_ok(self, container, member):
         """R2: a change made from the side of an object that is not in the session does not cascade the object in (no backref
@@ -789,6 +792,10 @@ class Run:
                 return "skip"      # another instance with that identity is already present: documented error
             if self.m["inspect"](e["obj"]).was_deleted:
                 return "skip"
+        for x in list(self.closure(e["obj"], "save-update")) + [e["obj"]]:
+            sx = self.m["inspect"](x)
+            if sx.transient and (sx.expired or sx.expired_attributes):
+                return "skip"      # expired, then its row was rolled back: what it held is gone for good (expire discards by contract)
         for x in self.closure(e["obj"], "save-update"):
             kx = self.m["inspect"](x).key
             if kx is not None and kx in self.session.identity_map and self.session.identity_map[kx] is not x:
